@@ -333,6 +333,7 @@ def cases(tier='quick', families=None):
         out.append(Case('S6', 'long/OCTS_S65536', 'IMPLICIT', Type('OCTET STRING', size=Cons(65536, 65536))))
         out.append(Case('S6', 'long/OCTS_S0_65536', 'IMPLICIT', Type('OCTET STRING', size=Cons(0, 65536))))
         out.append(Case('S6', 'long/SEQOF_BOOL', 'IMPLICIT', Type('SEQUENCE OF', elem=Type('BOOLEAN'))))
+        out.append(Case('S6', 'long/SETOF_INT8', 'IMPLICIT', Type('SET OF', elem=Type('INTEGER', cons=Cons(0, 255)))))
         out.append(Case('S6', 'long/SEQOF_INT8_S0_65535', 'IMPLICIT', Type('SEQUENCE OF', elem=Type('INTEGER', cons=Cons(0, 255)), size=Cons(0, 65535))))
     return out
 
